@@ -1,6 +1,13 @@
 #!/bin/bash
 # usage: check.sh <ID> <quick|thorough>   |   check.sh replay <path>
 # exit 0: property held on everything explored; 1: VIOLATION line(s) printed; 2: machinery failure.
+# VERIF_FROZEN_DIR=<dir> (maintenance only, see tools/freeze.sh): run <dir>/mc against <dir>/ruschm
+# without rebuilding, so that a long run is not affected by later rebuilds from a changed /repo.
+if [ -n "$VERIF_FROZEN_DIR" ]; then
+  export RUSCHM_BIN="$VERIF_FROZEN_DIR/ruschm"
+  if [ "$1" = "replay" ]; then exec "$VERIF_FROZEN_DIR/mc" replay "$2"; fi
+  exec "$VERIF_FROZEN_DIR/mc" check "$1" --tier "${2:-quick}"
+fi
 cd /verif/mc || exit 2
 export CARGO_NET_OFFLINE=true
 export RUSTFLAGS="--cfg ruschm_verif"
